@@ -99,3 +99,39 @@ class HeaderSplit(Contract):
                      options=dict(alloc_lists=True), symbols=dict(n_tags=n, vlevel=vl),
                      replay=lambda w: {"target": "bounded.replay_helpers:header_split_cases"},
                      confirm=battery_confirm)]
+
+
+@register
+class FieldArrayVpush(Contract):
+    fn = "gfapy/field_array.py::FieldArray._vpush"
+    props = ("C18", "C01", "C08")
+    fragment = "L"
+    doc = ("_vpush(value, datatype): the value is appended at the end, exactly once, unless it is refused: without a datatype the value must "
+           "be valid for the array's datatype (the validator's error propagates), with a datatype it must be the array's (InconsistencyError); a "
+           "refused value is not appended, an accepted one always is")
+
+    def cases(self, ctx):
+        g = ctx.gfapy
+        AII_ = z3.ArraySort(I, I)
+        h0 = {"L_n": z3.Const("L_n", AII_), "L_e": z3.Const("L_e", z3.ArraySort(I, AII_)), "next_list": z3.Int("next_list")}
+        lid = z3.Int("data_list")
+        dt_self, dt_arg = z3.String("array_datatype"), z3.String("given_datatype")
+        dt_none, valid = z3.Bool("no_datatype_given"), z3.Bool("value_is_valid")
+        val = Ref(z3.Int("value"))
+        fa = Obj(g.FieldArray, "field_array")
+        heap = {fa.oid: {"_data": LRef(lid), "_datatype": dt_self, "datatype": dt_self}}
+        def m_validate(E, st, pos, kw):
+            yield ("raise", Exc(g.FormatError), [z3.Not(valid)])
+            yield ("val", None, [valid])
+        models = {ctx.fn("gfapy/field/validator.py::Validator._validate_gfa_field"): m_validate, g.FieldArray.datatype.fget: const_model(lambda self_: dt_self)}
+        n0, e0 = h0["L_n"][lid], h0["L_e"][lid]
+        k = z3.Int("k")
+        refused = z3.If(dt_none, z3.Not(valid), dt_arg != dt_self)
+        def post(kd, v, st):
+            n1, e1 = st.zh["L_n"][lid], st.zh["L_e"][lid]
+            same = z3.And(n1 == n0, z3.ForAll([k], z3.Implies(z3.And(0 <= k, k < n0), e1[k] == e0[k])))
+            if kd == "raise":
+                return z3.And(refused, same, z3.BoolVal(issubclass(v.cls, g.Error)), z3.Implies(z3.Not(dt_none), z3.BoolVal(v.cls is g.InconsistencyError)))
+            return z3.And(z3.Not(refused), n1 == n0 + 1, e1[n0] == val.t, z3.ForAll([k], z3.Implies(z3.And(0 <= k, k < n0), e1[k] == e0[k])))
+        return [Case("push", [fa, val, Opt(dt_none, dt_arg), "xx"], post, pre=[n0 >= 0, lid < h0["next_list"]], zh=h0, heap=heap, models=models,
+                     symbols=dict(array_datatype=dt_self, given_datatype=dt_arg, no_datatype_given=dt_none, value_is_valid=valid), expect_paths=3)]
